@@ -868,14 +868,33 @@ func ruleLookupOrder(w *World, r *Report, e *Engine) {
 				if !ok || len(ci.Common().Args) == 0 {
 					continue
 				}
-				// calls whose receiver is e.outer
+				// calls whose receiver is e.outer - or a method of the same scope that makes that call (the ascent
+				// written as a function of its own: findInOuter, getFromOuter)
 				recv := ci.Common().Args[0]
-				ld, ok := recv.(*ssa.UnOp)
-				if !ok {
-					continue
+				isAscent := false
+				if ld, ok := recv.(*ssa.UnOp); ok {
+					if fa, ok := ld.X.(*ssa.FieldAddr); ok && fieldName(fa.X.Type(), fa.Field) == w.roles().envOuter {
+						isAscent = true
+					}
 				}
-				fa, ok := ld.X.(*ssa.FieldAddr)
-				if !ok || fieldName(fa.X.Type(), fa.Field) != w.roles().envOuter {
+				if h := ci.Common().StaticCallee(); !isAscent && h != nil && h.Pkg == fn.Pkg && h != fn && len(h.Blocks) > 0 && recv == ssa.Value(fn.Params[0]) {
+					if _, own := ownPresence(h); !own {
+						for _, hb := range h.Blocks {
+							for _, hin := range hb.Instrs {
+								hc, ok := hin.(ssa.CallInstruction)
+								if !ok || len(hc.Common().Args) == 0 {
+									continue
+								}
+								if ld, ok := hc.Common().Args[0].(*ssa.UnOp); ok {
+									if fa, ok := ld.X.(*ssa.FieldAddr); ok && fieldName(fa.X.Type(), fa.Field) == w.roles().envOuter && len(h.Params) > 0 && fa.X == ssa.Value(h.Params[0]) {
+										isAscent = true
+									}
+								}
+							}
+						}
+					}
+				}
+				if !isAscent {
 					continue
 				}
 				n++
@@ -949,6 +968,10 @@ func ruleLookupOrder(w *World, r *Report, e *Engine) {
 					if ld, ok := x.X.(*ssa.UnOp); ok {
 						if fa, ok := ld.X.(*ssa.FieldAddr); ok && isEnvPtr(fa.X.Type()) {
 							nlk++
+							// a lookup shared by several lookup functions counts once for each of them
+							if k := len(e.callSites(fn)); k > 1 && !e.escapedFn(fn) {
+								nlk += k - 1
+							}
 							r.check(x.CommaOk, "C01.lookup-order", fn, "lookup of a name in a scope's table", x.Pos(), "comma-ok: presence decides", "a scope's table is indexed without testing presence: a name bound to nil in an enclosing scope counts as unbound there, so the search goes on to an outer binding (or ends in 'not found') although the innermost binding wins")
 						}
 					}
@@ -1651,7 +1674,7 @@ func ruleBinds(w *World, r *Report, e *Engine) {
 		for _, l := range naturalLoops(cand) {
 			for b := range loopBlocks(l) {
 				if iff := blockIf(b); iff != nil {
-					if _, s, ok := strEq(iff.Cond); ok && s == "&" {
+					if _, s, _, ok := strCmp(iff.Cond); ok && s == "&" {
 						fn = cand
 					}
 				}
@@ -1672,10 +1695,14 @@ func ruleBinds(w *World, r *Report, e *Engine) {
 	blocks := loopBlocks(loops[0])
 	// the & test: comparison of a string with "&"
 	var ampBlock *ssa.BasicBlock
+	ampT, ampF := 0, 1 // the edges taken for & and for every other name (swapped when the test is written with !=)
 	for b := range blocks {
 		if iff := blockIf(b); iff != nil {
-			if _, s, ok := strEq(iff.Cond); ok && s == "&" {
+			if _, s, eq, ok := strCmp(iff.Cond); ok && s == "&" {
 				ampBlock = b
+				if !eq {
+					ampT, ampF = 1, 0
+				}
 			}
 		}
 	}
@@ -1684,7 +1711,7 @@ func ruleBinds(w *World, r *Report, e *Engine) {
 	// catch clause, or a function, without the value it was handed)
 	for b := range blocks {
 		if iff := blockIf(b); iff != nil {
-			if _, s, ok := strEq(iff.Cond); ok && s != "&" {
+			if _, s, _, ok := strCmp(iff.Cond); ok && s != "&" {
 				r.bad("C01.binds", fn, "parameter name treated specially", iff.Pos(), "the binding loop compares a parameter's name with "+fmt.Sprintf("%q", s)+": a parameter of that name is not bound like the others (every name but & is bound to the argument in its position)")
 			}
 		}
@@ -1723,8 +1750,8 @@ func ruleBinds(w *World, r *Report, e *Engine) {
 				continue
 			}
 			nUpd++
-			onAmp := edgeDominates(ampBlock, 0, b)
-			onPos := edgeDominates(ampBlock, 1, b)
+			onAmp := edgeDominates(ampBlock, ampT, b)
+			onPos := edgeDominates(ampBlock, ampF, b)
 			val := mu.Value
 			if mi, ok := val.(*ssa.MakeInterface); ok {
 				val = mi.X
@@ -1777,10 +1804,10 @@ func ruleBinds(w *World, r *Report, e *Engine) {
 			continue
 		}
 		if blocks[b] || anyPredIn(b, blocks) {
-			if edgeDominates(ampBlock, 1, b) {
+			if edgeDominates(ampBlock, ampF, b) {
 				inLoop++
 			}
-		} else if loops[0].header.Dominates(b) && !edgeDominates(ampBlock, 0, b) && !edgeDominates(ampBlock, 1, b) {
+		} else if loops[0].header.Dominates(b) && !edgeDominates(ampBlock, ampT, b) && !edgeDominates(ampBlock, ampF, b) {
 			after++
 		}
 	}
@@ -1790,7 +1817,7 @@ func ruleBinds(w *World, r *Report, e *Engine) {
 		if blocks[b] || !loops[0].header.Dominates(b) {
 			continue
 		}
-		if edgeDominates(ampBlock, 0, b) || edgeDominates(ampBlock, 1, b) {
+		if edgeDominates(ampBlock, ampT, b) || edgeDominates(ampBlock, ampF, b) {
 			continue // a test inside one lap (the & branch may leave the function itself), not the one after the loop
 		}
 		if iff := blockIf(b); iff != nil {
@@ -1833,7 +1860,7 @@ func ruleBinds(w *World, r *Report, e *Engine) {
 				seen[b] = true
 				if ret, ok := b.Instrs[len(b.Instrs)-1].(*ssa.Return); ok {
 					// (a success return on the & branch has bound the rest list: nothing can be left over)
-					if ev, isErr := errOf(ret); isErr && isNilConst(ev) && !(ampBlock != nil && edgeDominates(ampBlock, 0, b)) {
+					if ev, isErr := errOf(ret); isErr && isNilConst(ev) && !(ampBlock != nil && edgeDominates(ampBlock, ampT, b)) {
 						bypass = true
 					}
 				}
@@ -2489,4 +2516,16 @@ func (m *evalModel) allReturns(fn *ssa.Function) [][]ssa.Value {
 		out = append(out, vs)
 	}
 	return out
+}
+
+// strCmp: a comparison of a string with a constant, written with == or != (eq tells which).
+func strCmp(v ssa.Value) (ssa.Value, string, bool, bool) {
+	bo, ok := v.(*ssa.BinOp)
+	if !ok || (bo.Op != token.EQL && bo.Op != token.NEQ) {
+		return nil, "", false, false
+	}
+	if c, ok := bo.Y.(*ssa.Const); ok && c.Value != nil && c.Value.Kind() == constant.String {
+		return bo.X, constant.StringVal(c.Value), bo.Op == token.EQL, true
+	}
+	return nil, "", false, false
 }
